@@ -105,6 +105,7 @@ func exprStringStmt(st ast.Stmt) string {
 
 func extractC11Wire(l *lean, issF, verF *ast.File) {
 	extractC11Resolve(l)
+	extractC11VP(l)
 	_, typF := parseFile("vcr/revocation/types.go")
 	conds, rets := c11IfChain(c11Method(typF, "StatusList2021Entry", "Validate"))
 	l.def("entryValidateChain", "List String", leanStrList(conds), conds)
